@@ -5,10 +5,11 @@ hand-written model still transcribes it. The checks never run it."""
 import re, collections, sys
 ROOT = "/verif/lean/TemplVerif"
 src = open(f"{ROOT}/Generated/Skeletons.lean").read()
-items = re.findall(r"/-- \[(C\d\d)\] (\S+) (\S+): (.*?) -/\ndef (skel_\w+) : Nat := (\d+)", src, flags=re.S)
+items = re.findall(r"/-- \[([C\d,]+)\] (\S+) (\S+): (.*?) -/\ndef (skel_\w+) : Nat := (\d+)", src, flags=re.S)
 by = collections.defaultdict(list)
-for prop, file, fn, skel, name, val in items:
-    by[prop].append((file, fn, name, val))
+for props, file, fn, skel, name, val in items:
+    for prop in props.split(","):
+        by[prop].append((file, fn, name, val))
 for prop, lst in sorted(by.items()):
     p = f"{ROOT}/Props/{prop}.lean"
     s = open(p).read()
